@@ -88,18 +88,18 @@ def run(report, p):
                 if any(any(s[0] == "attr" and s[2] == "file_size" for s in subterms(o)) for o in size_o):
                     continue  # flatten copies recorded values
                 r3.instance(f, call, norm(call)[:100])
-                psig = {sig(o, 3) for o in path_o}
-                ok_size = all(is_call(o, "os.path.getsize") and sig(o[2][0], 3) in psig for o in size_o)
-                ok_date = all(is_call(o, "datetime.fromtimestamp") and o[2] and is_call(o[2][0], "os.path.getmtime") and sig(o[2][0][2][0], 3) in psig for o in date_o)
-                ok_dig = all(any(is_call(s, "multiple_format_hash_file") and s[2] and sig(s[2][0], 3) in psig for s in subterms(o)) or any(is_call(s, "hasher.hash_file") and s[2] and sig(s[2][0], 3) in psig for s in subterms(o)) for o in digest_o)
+                psigs = {psig(o) for o in path_o}
+                ok_size = all(is_call(o, "os.path.getsize") and psig(o[2][0]) in psigs for o in size_o)
+                ok_date = all(is_call(o, "datetime.fromtimestamp") and o[2] and is_call(o[2][0], "os.path.getmtime") and psig(o[2][0][2][0]) in psigs for o in date_o)
+                ok_dig = all(any(is_call(s, "multiple_format_hash_file") and s[2] and psig(s[2][0]) in psigs for s in subterms(o)) or any(is_call(s, "hasher.hash_file") and s[2] and psig(s[2][0]) in psigs for s in subterms(o)) for o in digest_o)
                 r3.check(ok_size, f, call, "recorded size is not os.path.getsize() of the recorded path", witness="; ".join(show(o)[:120] for o in size_o))
                 r3.check(ok_date, f, call, "recorded modification date is not datetime.fromtimestamp(os.path.getmtime()) of the recorded path", witness="; ".join(show(o)[:160] for o in date_o))
                 r3.check(ok_dig, f, call, "recorded digest is not computed from the recorded path", witness="; ".join(show(o)[:160] for o in digest_o))
             if any(t.endswith("append_multiple_format_directory_hashes") for t in tg) and len(call.args) >= 2:
                 path_o, date_o = pr.origins(call.args[0], f), pr.origins(call.args[1], f)
                 r3.instance(f, call, norm(call)[:100])
-                psig = {sig(o, 3) for o in path_o}
-                ok_date = all(is_call(o, "datetime.fromtimestamp") and o[2] and is_call(o[2][0], "os.path.getmtime") and sig(o[2][0][2][0], 3) in psig for o in date_o)
+                psigs = {psig(o) for o in path_o}
+                ok_date = all(is_call(o, "datetime.fromtimestamp") and o[2] and is_call(o[2][0], "os.path.getmtime") and psig(o[2][0][2][0]) in psigs for o in date_o)
                 r3.check(ok_date, f, call, "recorded folder modification date is not that of the recorded folder", witness="; ".join(show(o)[:160] for o in date_o))
 
     # ------------------------------------------------------------------ R16.4
@@ -122,6 +122,17 @@ def run(report, p):
     r4.check(ok, fn, fn.node, "manifest file names do not carry an aware UTC time formatted with a trailing 'Z'", construct="filename date")
 
     report.not_decided += ["correctness of the tz database", "that the instant written equals the file's mtime at run time (only its provenance)", "sizes of files that change during hashing"]
+
+
+def _same_file(t):
+    """strip wrappers that denote the same file: realpath / abspath / normpath / str"""
+    while isinstance(t, tuple) and t[0] == "call" and t[1].endswith(("os.path.realpath", "os.path.abspath", "os.path.normpath", "builtin:str", "os.fspath")) and t[2]:
+        t = t[2][0]
+    return t
+
+
+def psig(t):
+    return sig(_same_file(t), 3)
 
 
 def _depends_on_params(pr, f, e, params) -> bool:
